@@ -325,7 +325,7 @@ pub fn run(args: &[String]) -> i32 {
                 break;
             }
         }
-        let case = format!("schema={} codec={codec_name} block_size={block_size} ops=[{}]", if text.len() > 300 { &text[..300] } else { &text }, descr.join(", "));
+        let case = format!("schema={} codec={codec_name} block_size={block_size} ops=[{}]", crate::util::trunc(&text, 300), descr.join(", "));
         if panicked {
             out.oracle_fail("panic", "a writer operation panicked", &case);
             continue;
